@@ -12,6 +12,7 @@ import (
 
 	lib "github.com/corazawaf/libinjection-go"
 	"verifh/ev"
+	"verifh/gen"
 )
 
 // C20 - shipped detection tables are well-formed and never lose baseline entries.
@@ -129,6 +130,31 @@ func c20Workload() {
 			in = append(in, vec[i])
 		}
 		in = append(in, c10Witnesses...)
+		in = append(in, c05Universe()...)
+		hb, sb := htmlBoundaryInputs(), sqlBoundaryInputs()
+		for i := 0; i < len(hb); i += 40 {
+			if len(hb[i]) < 5000 {
+				in = append(in, hb[i])
+			}
+		}
+		for i := 0; i < len(sb); i += 400 {
+			if len(sb[i]) < 5000 {
+				in = append(in, sb[i])
+			}
+		}
+		// every attribute and event name as an attribute, as the value of attributename, and next to benign ones
+		var names []string
+		for n := range xlists().Attrs {
+			names = append(names, n)
+		}
+		for n := range xlists().Events {
+			names = append(names, "on"+n)
+		}
+		sort.Strings(names)
+		for _, n := range append(names, "fill", "opacity", "x", "transform", "title", "class") {
+			ln := gen.LowerASCII(n)
+			in = append(in, "<a "+ln+"=x>", "<set attributeName="+ln+" to=red>", "<animate attributename='"+ln+"' values=x>", "<set attributeName=fill "+ln+"=red>", "<a title=x "+ln+">")
+		}
 		for _, s := range in {
 			for m := 0; m < 3; m++ {
 				v := maskCase(s, make([]bool, len(s)), m, 0)
@@ -136,6 +162,21 @@ func c20Workload() {
 				lib.IsXSS(v)
 			}
 		}
+		// the same calls once more from 8 goroutines at once (a table that is re-ordered or filtered in place while
+		// detecting is torn by concurrent callers)
+		var wg sync.WaitGroup
+		for g := 0; g < 8; g++ {
+			wg.Add(1)
+			go func(g int) {
+				defer wg.Done()
+				defer func() { recover() }()
+				for i := g; i < len(in); i += 2 {
+					lib.IsXSS(in[i])
+					lib.IsSQLi(in[i])
+				}
+			}(g)
+		}
+		wg.Wait()
 	})
 }
 
@@ -323,7 +364,7 @@ func TestC20(t *testing.T) {
 		}
 		return acases[i].In < acases[j].In
 	})
-	p = c.rec.NewPart("all_entries_after_workload", fmt.Sprintf("%d entries of the tables re-read after ~7,000 sequential detector calls in three case modes", len(acases)), false, true, "finite")
+	p = c.rec.NewPart("all_entries_after_workload", fmt.Sprintf("%d entries of the tables re-read after a workload of detector calls (fixtures, attack grammar, vectors, the C05 universe, boundary inputs, every list name as attribute and as attributename value; three case modes sequentially, then once more from 8 goroutines)", len(acases)), false, true, "finite")
 	c.ParRange(p, int64(len(acases)), func(w *Worker, i int64) { w.Judge(acases[i]) })
 	if len(after.Keywords) != len(cur.Keywords) {
 		c.rec.Violate(ev.Case{Kind: "after_keyword", In: "(table size)"}, fmt.Sprintf("the keyword table had %d entries at start and has %d after a workload of detector calls", len(cur.Keywords), len(after.Keywords)))
